@@ -10,6 +10,7 @@ for t in translate/*.py; do
     macros) out=MacroArms.lean ;;
     pbtable) out=PbTables.lean ;;
     orderings) out=Orderings.lean ;;
+    charsets) out=Charsets.lean ;;
     *) continue ;;
   esac
   python3 "$t" /repo "lean/Prom/Gen/$out"
